@@ -203,6 +203,8 @@ pub struct ModelAns {
 
 #[derive(Default, Clone, Debug)]
 pub struct ModelStats {
+    pub pinned_queries: u64,
+    pub pinned_unknown: u64,
     pub pristine_queries: u64,
     pub pristine_unknown: u64,
     pub calls: u64,
@@ -217,11 +219,14 @@ pub struct Model<'w> {
     pub stats: Mutex<ModelStats>,
     /// (description, pristine answer, in-process answer)
     pub pristine_viols: Mutex<Vec<(String, String, String)>>,
+    /// (description, position-pinned answer, find_from answer)
+    pub pinned_viols: Mutex<Vec<(String, String, String)>>,
+    pinned_budget: Mutex<u32>,
 }
 
 impl<'w> Model<'w> {
     pub fn new(world: &'w World) -> Self {
-        Model { world, memo: Mutex::new(HashMap::new()), stats: Mutex::new(ModelStats::default()), pristine_viols: Mutex::new(Vec::new()) }
+        Model { world, memo: Mutex::new(HashMap::new()), stats: Mutex::new(ModelStats::default()), pristine_viols: Mutex::new(Vec::new()), pinned_viols: Mutex::new(Vec::new()), pinned_budget: Mutex::new(8) }
     }
 
     /// FIRST(regex, text, cursor): a brand-new search on a freshly compiled,
@@ -260,6 +265,31 @@ impl<'w> Model<'w> {
             st.calls += 1;
             st.steps += steps;
         }
+        // Independent first-match oracle (sampled worlds): see first_pinned.
+        if self.world.knobs.pristine && cursor <= text.len() && text.chars().count() <= 24 {
+            if let Some(inproc) = &ans.outcome {
+                let go = {
+                    let mut b = self.pinned_budget.lock().unwrap();
+                    if *b > 0 {
+                        *b -= 1;
+                        true
+                    } else {
+                        false
+                    }
+                };
+                if go && !inproc.starts_with("NoRegex") && !inproc.starts_with("Panicked") {
+                    self.stats.lock().unwrap().pinned_queries += 1;
+                    match self.first_pinned(reidx, text, cursor) {
+                        Some(pinned) => {
+                            if pinned != *inproc {
+                                self.pinned_viols.lock().unwrap().push((format!("/{}/{} ({:?},{:?}) on {:?} from {}", spec.pattern, spec.flags, spec.exec, spec.input, text, cursor), pinned, inproc.clone()));
+                            }
+                        }
+                        None => self.stats.lock().unwrap().pinned_unknown += 1,
+                    }
+                }
+            }
+        }
         // Pristine-process oracle (sampled worlds): the same one-shot search in a process
         // with no history at all must give the same answer as here.
         if self.world.knobs.pristine && crate::pristine::available() {
@@ -286,6 +316,47 @@ impl<'w> Model<'w> {
         }
         self.memo.lock().unwrap().insert(key, ans.clone());
         ans
+    }
+
+    /// "First match at or after the cursor" computed WITHOUT ever passing a non-zero start to
+    /// the engine: for p = cursor, cursor+1 char, ... the derived regex
+    /// `(?<=(?<![^])[^]{n})(?:P)` (n = characters before p) is searched from offset 0; its
+    /// look-behind pins the match start at p while the whole text stays visible to P. The
+    /// first p that matches gives the answer. Independent of the engine's handling of `start`
+    /// and of the prefilter scan from the cursor, which is what C09's "text before start stays
+    /// visible" clause is about. None = unknown (fuel, derived pattern does not compile).
+    pub fn first_pinned(&self, reidx: u32, text: &str, cursor: usize) -> Option<String> {
+        let spec = &self.world.regexes[reidx as usize];
+        let ascii = spec.input == InputKind::Ascii;
+        let fuel = self.world.knobs.fuel.saturating_mul(40);
+        let copy: String = text.to_string();
+        let text_static: &'static str = unsafe { &*(copy.as_str() as *const str) };
+        let mut positions: Vec<usize> = if ascii { (cursor..=copy.len()).collect() } else { copy.char_indices().map(|(i, _)| i).chain(std::iter::once(copy.len())).filter(|i| *i >= cursor).collect() };
+        positions.dedup();
+        let (r, _) = model_mode(fuel, || {
+            for p in positions {
+                let n = if ascii { p } else { copy[..p].chars().count() };
+                let derived = RegexSpec { pattern: format!("(?<=(?<![^])[^]{{{}}})(?:{})", n, spec.pattern), flags: spec.flags.clone(), exec: spec.exec, input: spec.input };
+                let re = match compile(&derived) {
+                    Ok(re) => re,
+                    Err(_) => return None,
+                };
+                let mut it = open_iter(&re, &derived, text_static, 0);
+                let m = it.next();
+                drop(it);
+                if let Some(m) = m {
+                    if m.start() != p {
+                        return None; // the pin did not hold: do not trust this oracle here
+                    }
+                    return Some(fmt_match(&m));
+                }
+            }
+            Some("None".to_string())
+        });
+        match r {
+            Ok(v) => v,
+            Err(_) => None,
+        }
     }
 
     /// The k-th (1-based) result of a brand-new iterator opened at `start` on a private
@@ -1764,6 +1835,17 @@ pub fn execute(world: &World, explicit: Option<&[Segment]>) -> Exec {
                 observed: v.observed.clone(),
             });
         }
+    }
+    for (what, pinned, inproc) in model.pinned_viols.lock().unwrap().iter() {
+        viols.push(Violation {
+            property: "C09",
+            clause: "first-at-cursor!=position-pinned-first".into(),
+            pass: 0,
+            thread: 0,
+            op: 0,
+            expected: format!("{} (match start pinned by look-behind, searched from 0): {}", pinned, what),
+            observed: inproc.clone(),
+        });
     }
     for (what, pristine, inproc) in model.pristine_viols.lock().unwrap().iter() {
         viols.push(Violation {
